@@ -32,19 +32,14 @@ pub fn extract_json(v: &serde_json::Value, out: &mut String) -> (r: Result<()>) 
 //@ extract src/database/node.rs :: struct NodeToInsert
 //@ end
 
-/// byte-wise lexicographic order of signatures (std's Ord for Vec<u8>): a total order
-pub mod trusted_order {
-    use vstd::prelude::*;
-    pub uninterp spec fn sig_le(a: Seq<u8>, b: Seq<u8>) -> bool;
-    #[verifier::external_body]
-    pub proof fn axiom_sig_le_total_order(a: Seq<u8>, b: Seq<u8>, c: Seq<u8>)
-        ensures sig_le(a, a), sig_le(a, b) || sig_le(b, a), sig_le(a, b) && sig_le(b, a) ==> a == b, sig_le(a, b) && sig_le(b, c) ==> sig_le(a, c) {}
-}
-pub use trusted_order::*;
+//@ include common/lww_spec.rs
 // E19: `a <= b` on Vec<u8> (std's lexicographic Ord; `le` is a provided trait method and cannot be given a specification) is
 // replaced by this stub with the std meaning
 #[verifier::external_body]
 pub fn vec_u8_le(a: &Vec<u8>, b: &Vec<u8>) -> (r: bool) ensures r == sig_le(a@, b@) { a <= b }
+// E19 (strict form): `a < b` on Vec<u8>: in a total order, a < b iff not b <= a
+#[verifier::external_body]
+pub fn vec_u8_lt(a: &Vec<u8>, b: &Vec<u8>) -> (r: bool) ensures r == !sig_le(b@, a@) { a < b }
 
 /// the set of ids still to be requested from the peer (HashSet<NodeIdentifier> whose Eq/Hash look at the id only): modelled as a
 /// partial map from id to the incoming version
@@ -67,9 +62,7 @@ impl IdSet {
 }
 
 /// version `a` of a row is newer than version `b`: later modification date, or same date and greater signature
-pub open spec fn newer(a: NodeIdentifier, b: NodeIdentifier) -> bool {
-    a.mdate > b.mdate || (a.mdate == b.mdate && !sig_le(a.signature@, b.signature@))
-}
+pub open spec fn newer(a: NodeIdentifier, b: NodeIdentifier) -> bool { newer_v(a.mdate, a.signature@, b.mdate, b.signature@) }
 
 //@ extract src/database/node.rs :: impl Node / fn filter_existing as Node::lww_decision
 //@ lift "if let Some(new) = node_ids.get(&existing) {" :: fn lww_decision(new: &NodeIdentifier, existing: NodeIdentifier, node: Node, node_ids: &mut IdSet, result: &mut Vec<NodeToInsert>) -> Result<()> tail "Ok(())"
@@ -87,6 +80,8 @@ pub open spec fn newer(a: NodeIdentifier, b: NodeIdentifier) -> bool {
             // [stored_entity_travels_with_the_request]{C02} the entity of the stored version goes along with the request: a stored row is replaced only by a version of the same entity (unit u2b_ingest decides it on this field)
             r is Ok && newer(*new, existing) ==> final(result)@.len() > 0 && final(result)@.last().old_entity == Some(node._entity),
             r is Ok ==> (!newer(*new, existing) ==> final(result)@ == old(result)@),
+            // [announced_version_travels_with_the_request]{C03,C11} the version that was compared with the stored row - the announced one - is recorded with the request: the row delivered later is measured against it (F42)
+            r is Ok && newer(*new, existing) ==> final(result)@.len() > 0 && final(result)@.last().announced_mdate == new.mdate && final(result)@.last().announced_signature@ == new.signature@,
 //@ end
 
 //@ obligation L_lww_strict_total_order props C03 : 'newer' is a strict total order on versions of a row (irreflexive, asymmetric, transitive, total on versions that differ in date or signature): whichever order versions arrive in, the maximal one replaces every other and is replaced by none, so the same version wins on every peer
@@ -144,8 +139,32 @@ pub open spec fn deleted_or_older(deleted: Option<i64>, mdate: i64) -> bool { de
             r is Ok && deleted_or_older(spec_deleted_mdate(node_id.id), node_id.mdate) ==> final(result)@ == old(result)@,
             // [unknown_row_requested]{C11,C03} every other incoming row that is not stored here is requested, once
             r is Ok && !deleted_or_older(spec_deleted_mdate(node_id.id), node_id.mdate) ==> final(result)@.len() == old(result)@.len() + 1
-                && final(result)@.subrange(0, old(result)@.len() as int) == old(result)@ && final(result)@.last().id == node_id.id && final(result)@.last().old_room_id is None,
+                && final(result)@.subrange(0, old(result)@.len() as int) == old(result)@ && final(result)@.last().id == node_id.id && final(result)@.last().old_room_id is None
+                // [announced_version_travels_with_the_request_for_an_unknown_row]{C11} .. with the announced version, the one the deletion log was consulted for (F42)
+                && final(result)@.last().announced_mdate == node_id.mdate && final(result)@.last().announced_signature@ == node_id.signature@,
 //@ end
+
+//@ extract src/database/node.rs :: impl NodeToInsert / fn is_older_than_announced
+//@ result r
+//@ rewrite E19 "node\._signature < self\.announced_signature" => "vec_u8_lt(&node._signature, &self.announced_signature)" x1
+//@ spec
+        ensures
+            // [older_than_announced_is_the_lww_order]{C03,C11} a delivered row is refused exactly when the announced version is newer than it in the order of the last-writer-wins rule (modification date, then signature)
+            r == newer_v(self.announced_mdate, self.announced_signature@, node.mdate, node._signature@),
+//@ end
+
+//@ obligation L_delivered_version_passes_the_checks_of_the_announced_one props C03,C11 : a delivered version that is not older than the announced one is newer than the stored version the announced one was newer than, and is not a deleted version when the announced one was not: the checks of filter_existing carry over to what is stored
+pub proof fn L_delivered_version_passes_the_checks_of_the_announced_one(ad: i64, asig: Seq<u8>, dd: i64, dsig: Seq<u8>, sd: i64, ssig: Seq<u8>, deleted: Option<i64>)
+    requires !newer_v(ad, asig, dd, dsig),
+    ensures
+        newer_v(ad, asig, sd, ssig) ==> newer_v(dd, dsig, sd, ssig),
+        !deleted_or_older(deleted, ad) ==> !deleted_or_older(deleted, dd),
+{
+    axiom_sig_le_total_order(asig, dsig, ssig);
+    axiom_sig_le_total_order(dsig, asig, ssig);
+    axiom_sig_le_total_order(asig, ssig, dsig);
+    axiom_sig_le_total_order(dsig, ssig, asig);
+}
 
 } // verus!
 fn main() {}
